@@ -5,6 +5,7 @@
 -/
 import ScoresVerif.Gen.ThresholdWeighted
 import ScoresVerif.Spec.ThresholdWeighted
+import ScoresVerif.Model.ThresholdWeighted
 import ScoresVerif.Lemmas.Quad
 import ScoresVerif.Lemmas.FlBasic
 
@@ -1018,5 +1019,212 @@ theorem tw_huber_fin (h x y : Rat) :
     tw_huber_loss (fin x) (fin y) (fin h) φF φ'F = fin (1 / 2 * ch h φ (fun t => 4 * g t) x y) := by
   rw [tw_huber_loss, consistent_huber_fin φF φ'F φ (fun t => 4 * g t) F.hφ F.hφ', mul_fin]
 end wrappers
+
+
+section model
+open SV.Model.TW
+/-! ### the hand model of `_auxiliary_funcs`: the replaced end points lie beyond the data -/
+
+theorem le_of_lt_false {t m : Fl} (ht : t ≠ nan) (hm : m ≠ nan) (h : Fl.lt t m = false) : Fl.le m t = true := by
+  cases t <;> cases m <;> simp_all [Fl.lt, Fl.le] 
+theorem le_of_lt_true {t m : Fl} (h : Fl.lt t m = true) : Fl.le t m = true := by
+  cases t <;> cases m <;> simp_all [Fl.lt, Fl.le]
+  exact le_of_lt h
+theorem fl_le_refl {t : Fl} (ht : t ≠ nan) : Fl.le t t = true := by
+  cases t <;> simp_all [Fl.le]
+theorem fl_le_trans {x y z : Fl} (h1 : Fl.le x y = true) (h2 : Fl.le y z = true) : Fl.le x z = true := by
+  cases x <;> cases y <;> cases z <;> simp_all [Fl.le]
+  exact le_trans h1 h2
+
+/-- folding "keep the smaller" over non-NaN values returns a member that is ≤ every member -/
+theorem foldl_min_spec : ∀ (l : List Fl) (init : Fl), (∀ t ∈ init :: l, t ≠ nan) →
+    (l.foldl (fun m t => if Fl.lt t m then t else m) init) ∈ init :: l ∧
+    ∀ t ∈ init :: l, Fl.le (l.foldl (fun m t => if Fl.lt t m then t else m) init) t = true := by
+  intro l
+  induction l with
+  | nil => intro init h; simp only [List.foldl_nil]; exact ⟨by simp, fun t ht => by
+      simp only [List.mem_cons, List.not_mem_nil, or_false] at ht; rw [ht]; exact fl_le_refl (h init (by simp))⟩
+  | cons a l ih =>
+    intro init h
+    simp only [List.foldl_cons]
+    have hinit := h init (by simp); have ha := h a (by simp)
+    by_cases c : Fl.lt a init = true
+    · rw [if_pos c]
+      have := ih a (fun t ht => h t (by simp only [List.mem_cons] at ht ⊢; tauto))
+      refine ⟨by have := this.1; simp only [List.mem_cons] at this ⊢; tauto, ?_⟩
+      intro t ht
+      simp only [List.mem_cons] at ht
+      rcases ht with rfl | rfl | ht
+      · exact fl_le_trans (this.2 a (by simp)) (le_of_lt_true c)
+      · exact this.2 _ (by simp)
+      · exact this.2 t (by simp [ht])
+    · have c' : Fl.lt a init = false := by simpa using c
+      rw [if_neg c]
+      have := ih init (fun t ht => h t (by simp only [List.mem_cons] at ht ⊢; tauto))
+      refine ⟨by have := this.1; simp only [List.mem_cons] at this ⊢; tauto, ?_⟩
+      intro t ht
+      simp only [List.mem_cons] at ht
+      rcases ht with rfl | rfl | ht
+      · exact this.2 _ (by simp)
+      · exact fl_le_trans (this.2 init (by simp)) (le_of_lt_false ha hinit c')
+      · exact this.2 t (by simp [ht])
+
+
+theorem valid_of_no_nan (l : List Fl) (h : ∀ t ∈ l, t ≠ nan) : valid l = l := by
+  unfold valid
+  rw [List.filter_eq_self]
+  intro t ht
+  have := h t ht
+  cases t <;> simp_all [notNan, isNan]
+
+theorem nanMin_spec (l : List Fl) (hne : l ≠ []) (h : ∀ t ∈ l, t ≠ nan) :
+    nanMin l ∈ l ∧ ∀ t ∈ l, Fl.le (nanMin l) t = true := by
+  unfold nanMin; rw [valid_of_no_nan l h]
+  cases l with
+  | nil => exact absurd rfl hne
+  | cons v vs => exact foldl_min_spec vs v h
+
+theorem pyMin_spec (l : List Fl) (hne : l ≠ []) (h : ∀ t ∈ l, t ≠ nan) :
+    pyMin l ∈ l ∧ ∀ t ∈ l, Fl.le (pyMin l) t = true := by
+  cases l with
+  | nil => exact absurd rfl hne
+  | cons v vs => exact foldl_min_spec vs v h
+
+theorem nanMin_map_fin (xs : List Rat) (hne : xs ≠ []) :
+    ∃ m, nanMin (xs.map fin) = fin m ∧ m ∈ xs ∧ ∀ x ∈ xs, m ≤ x := by
+  have hs := nanMin_spec (xs.map fin) (by simpa using hne) (by
+    intro t ht; rw [List.mem_map] at ht; obtain ⟨q, _, rfl⟩ := ht; simp)
+  obtain ⟨hm, hle⟩ := hs
+  rw [List.mem_map] at hm
+  obtain ⟨m, hm1, hm2⟩ := hm
+  refine ⟨m, hm2.symm, hm1, fun x hx => ?_⟩
+  have := hle (fin x) (List.mem_map_of_mem hx)
+  rw [← hm2] at this
+  simpa using this
+
+/-- **left replacement value of the rectangular branch** (`min(fcst.min(), obs.min(), b.min()) − 1`): finite, at least 1
+    below every forecast, every observation and every finite right end point -/
+theorem aux_rect_left_replacement (fc ob : List Rat) (bs : List Fl) (hf : fc ≠ []) (ho : ob ≠ []) (hb : bs ≠ [])
+    (hbs : ∀ t ∈ bs, t = pinf ∨ ∃ q, t = fin q) :
+    ∃ A, Fl.sub (pyMin [nanMin (fc.map fin), nanMin (ob.map fin), nanMin bs]) (fin 1) = fin A ∧
+      (∀ x ∈ fc, A + 1 ≤ x) ∧ (∀ y ∈ ob, A + 1 ≤ y) ∧ (∀ q, fin q ∈ bs → A + 1 ≤ q) := by
+  obtain ⟨m1, e1, _, h1⟩ := nanMin_map_fin fc hf
+  obtain ⟨m2, e2, _, h2⟩ := nanMin_map_fin ob ho
+  have hbn : ∀ t ∈ bs, t ≠ nan := by
+    intro t ht; rcases hbs t ht with rfl | ⟨q, rfl⟩ <;> simp
+  obtain ⟨m3mem, h3⟩ := nanMin_spec bs hb hbn
+  have n3 : nanMin bs ≠ nan := hbn _ m3mem
+  rw [e1, e2]
+  have hp := pyMin_spec [fin m1, fin m2, nanMin bs] (by simp) (by
+    intro t ht; simp only [List.mem_cons, List.not_mem_nil, or_false] at ht
+    rcases ht with rfl | rfl | rfl <;> simp [n3])
+  obtain ⟨pm, ple⟩ := hp
+  have l1 := ple (fin m1) (by simp); have l2 := ple (fin m2) (by simp); have l3 := ple (nanMin bs) (by simp)
+  -- the minimum is one of fin m1, fin m2, nanMin bs and is ≤ fin m1 : it is finite
+  generalize pyMin [fin m1, fin m2, nanMin bs] = r at pm ple l1 l2 l3
+  have hr : ∃ A0, r = fin A0 := by
+    simp only [List.mem_cons, List.not_mem_nil, or_false] at pm
+    rcases pm with rfl | rfl | rfl
+    · exact ⟨m1, rfl⟩
+    · exact ⟨m2, rfl⟩
+    · rcases hbs _ m3mem with e | ⟨q, e⟩
+      · rw [e] at l1; simp [Fl.le] at l1
+      · exact ⟨q, e⟩
+  obtain ⟨A0, rfl⟩ := hr
+  refine ⟨A0 - 1, by simp, fun x hx => ?_, fun y hy => ?_, fun q hq => ?_⟩
+  · have := h1 x hx; simp at l1; linarith
+  · have := h2 y hy; simp at l2; linarith
+  · have := fl_le_trans l3 (h3 (fin q) hq); simp at this; linarith
+
+theorem foldl_max_spec : ∀ (l : List Fl) (init : Fl), (∀ t ∈ init :: l, t ≠ nan) →
+    (l.foldl (fun m t => if Fl.gt t m then t else m) init) ∈ init :: l ∧
+    ∀ t ∈ init :: l, Fl.le t (l.foldl (fun m t => if Fl.gt t m then t else m) init) = true := by
+  intro l
+  induction l with
+  | nil => intro init h; simp only [List.foldl_nil]; exact ⟨by simp, fun t ht => by
+      simp only [List.mem_cons, List.not_mem_nil, or_false] at ht; rw [ht]; exact fl_le_refl (h init (by simp))⟩
+  | cons a l ih =>
+    intro init h
+    simp only [List.foldl_cons]
+    have hinit := h init (by simp); have ha := h a (by simp)
+    by_cases c : Fl.gt a init = true
+    · rw [if_pos c]
+      have := ih a (fun t ht => h t (by simp only [List.mem_cons] at ht ⊢; tauto))
+      refine ⟨by have := this.1; simp only [List.mem_cons] at this ⊢; tauto, ?_⟩
+      intro t ht
+      simp only [List.mem_cons] at ht
+      rcases ht with rfl | rfl | ht
+      · exact fl_le_trans (le_of_lt_true (by simpa [Fl.gt] using c)) (this.2 a (by simp))
+      · exact this.2 _ (by simp)
+      · exact this.2 t (by simp [ht])
+    · have c' : Fl.lt init a = false := by simpa [Fl.gt] using c
+      rw [if_neg c]
+      have := ih init (fun t ht => h t (by simp only [List.mem_cons] at ht ⊢; tauto))
+      refine ⟨by have := this.1; simp only [List.mem_cons] at this ⊢; tauto, ?_⟩
+      intro t ht
+      simp only [List.mem_cons] at ht
+      rcases ht with rfl | rfl | ht
+      · exact this.2 _ (by simp)
+      · exact fl_le_trans (le_of_lt_false hinit ha c') (this.2 init (by simp))
+      · exact this.2 t (by simp [ht])
+
+theorem nanMax_spec (l : List Fl) (hne : l ≠ []) (h : ∀ t ∈ l, t ≠ nan) :
+    nanMax l ∈ l ∧ ∀ t ∈ l, Fl.le t (nanMax l) = true := by
+  unfold nanMax; rw [valid_of_no_nan l h]
+  cases l with
+  | nil => exact absurd rfl hne
+  | cons v vs => exact foldl_max_spec vs v h
+
+theorem pyMax_spec (l : List Fl) (hne : l ≠ []) (h : ∀ t ∈ l, t ≠ nan) :
+    pyMax l ∈ l ∧ ∀ t ∈ l, Fl.le t (pyMax l) = true := by
+  cases l with
+  | nil => exact absurd rfl hne
+  | cons v vs => exact foldl_max_spec vs v h
+
+theorem nanMax_map_fin (xs : List Rat) (hne : xs ≠ []) :
+    ∃ m, nanMax (xs.map fin) = fin m ∧ m ∈ xs ∧ ∀ x ∈ xs, x ≤ m := by
+  have hs := nanMax_spec (xs.map fin) (by simpa using hne) (by
+    intro t ht; rw [List.mem_map] at ht; obtain ⟨q, _, rfl⟩ := ht; simp)
+  obtain ⟨hm, hle⟩ := hs
+  rw [List.mem_map] at hm
+  obtain ⟨m, hm1, hm2⟩ := hm
+  refine ⟨m, hm2.symm, hm1, fun x hx => ?_⟩
+  have := hle (fin x) (List.mem_map_of_mem hx)
+  rw [← hm2] at this
+  simpa using this
+
+/-- **right replacement value** (`max(fcst.max(), obs.max(), a.max()) + 1`): finite, at least 1 above every forecast,
+    every observation and every finite left end point -/
+theorem aux_rect_right_replacement (fc ob : List Rat) (as : List Fl) (hf : fc ≠ []) (ho : ob ≠ []) (ha : as ≠ [])
+    (has : ∀ t ∈ as, t = ninf ∨ ∃ q, t = fin q) :
+    ∃ B, Fl.add (pyMax [nanMax (fc.map fin), nanMax (ob.map fin), nanMax as]) (fin 1) = fin B ∧
+      (∀ x ∈ fc, x + 1 ≤ B) ∧ (∀ y ∈ ob, y + 1 ≤ B) ∧ (∀ q, fin q ∈ as → q + 1 ≤ B) := by
+  obtain ⟨m1, e1, _, h1⟩ := nanMax_map_fin fc hf
+  obtain ⟨m2, e2, _, h2⟩ := nanMax_map_fin ob ho
+  have han : ∀ t ∈ as, t ≠ nan := by
+    intro t ht; rcases has t ht with rfl | ⟨q, rfl⟩ <;> simp
+  obtain ⟨m3mem, h3⟩ := nanMax_spec as ha han
+  have n3 : nanMax as ≠ nan := han _ m3mem
+  rw [e1, e2]
+  have hp := pyMax_spec [fin m1, fin m2, nanMax as] (by simp) (by
+    intro t ht; simp only [List.mem_cons, List.not_mem_nil, or_false] at ht
+    rcases ht with rfl | rfl | rfl <;> simp [n3])
+  obtain ⟨pm, ple⟩ := hp
+  have l1 := ple (fin m1) (by simp); have l2 := ple (fin m2) (by simp); have l3 := ple (nanMax as) (by simp)
+  generalize pyMax [fin m1, fin m2, nanMax as] = r at pm ple l1 l2 l3
+  have hr : ∃ B0, r = fin B0 := by
+    simp only [List.mem_cons, List.not_mem_nil, or_false] at pm
+    rcases pm with rfl | rfl | rfl
+    · exact ⟨m1, rfl⟩
+    · exact ⟨m2, rfl⟩
+    · rcases has _ m3mem with e | ⟨q, e⟩
+      · rw [e] at l1; simp [Fl.le] at l1
+      · exact ⟨q, e⟩
+  obtain ⟨B0, rfl⟩ := hr
+  refine ⟨B0 + 1, by simp, fun x hx => ?_, fun y hy => ?_, fun q hq => ?_⟩
+  · have := h1 x hx; simp at l1; linarith
+  · have := h2 y hy; simp at l2; linarith
+  · have := fl_le_trans (h3 (fin q) hq) l3; simp at this; linarith
+end model
 
 end SV.TW
